@@ -19,6 +19,7 @@ From Tx Require Model.OpsC14.
 From Tx Require Model.OpsC07.
 From Tx Require Model.OpsC19.
 From Tx Require Model.OpsC20.
+From Tx Require Model.OpsC05.
 Local Open Scope Z_scope.
 
 Definition run_op (s : sexp) : sexp :=
@@ -43,6 +44,7 @@ Definition run_op (s : sexp) : sexp :=
       | 7 => OpsC07.op args
       | 19 => OpsC19.op args
       | 20 => OpsC20.op args
+      | 5 => OpsC05.op args
       | _ => bad
       end
   | _ => bad
